@@ -95,7 +95,7 @@ func (o *CandidateNode) decodeIntoChild(childNode *yaml.Node, anchorMap map[stri
 
 	// null yaml.Nodes to not end up calling UnmarshalYAML
 	// so we call it explicitly
-	if childNode.Tag == "!!null" {
+	if childNode.Tag == "!!null" && childNode.Kind == yaml.ScalarNode {
 		newChild.Kind = ScalarNode
 		newChild.copyFromYamlNode(childNode, anchorMap)
 		return newChild, nil
